@@ -581,7 +581,7 @@ class SoCBusHandler(LiteXModule):
             # If 1 bus_master, 1 bus_slave and no address translation, use InterconnectPointToPoint.
             if ((len(self.masters) == 1)  and
                 (len(self.slaves)  == 1)  and
-                (next(iter(self.regions.values())).origin == 0)):
+                (self.regions[next(iter(self.slaves))].origin == 0)):
                 self._interconnect = interconnect_p2p_cls(
                     master = next(iter(self.masters.values())),
                     slave  = next(iter(self.slaves.values())))
